@@ -271,6 +271,10 @@ ares_status_t ares_init_by_options(ares_channel_t            *channel,
     if (optmask != 0) {
       return ARES_ENODATA; /* LCOV_EXCL_LINE: DefensiveCoding */
     }
+    /* No options at all (ares_init()): the query cache is still on by default,
+     * exactly as with an empty option mask */
+    channel->qcache_max_ttl = 3600;
+    channel->optmask        = ARES_OPT_QUERY_CACHE;
     return ARES_SUCCESS;
   }
 
